@@ -135,6 +135,11 @@ type c10Rec struct {
 	VT     uint64 `json:"vt,omitempty"`     // virtual time (sum of the back-dating steps), ns
 	AgeAnn uint64 `json:"ageann,omitempty"`
 	AgeDup uint64 `json:"agedup,omitempty"`
+
+	Tracked      *bool  `json:"tracked,omitempty"`      // M in a sequence: does the station track the registration right after publishing this?
+	AnnUntracked bool   `json:"annuntracked,omitempty"` // L: something was published for this registration while the station did not track it
+	Registry     string `json:"registry,omitempty"`     // shutdown records: what the station's registry looked like
+	Stale        bool   `json:"stale,omitempty"`        // M: published by MarkActive on an object that is no longer the tracked one; L: that happened earlier
 }
 
 type c10Case struct {
@@ -154,6 +159,7 @@ type c10Case struct {
 	advUpdate uint64
 	advDup    uint64
 	src       pb.RegistrationSource // 0 = API
+	covert    string                // "" = 192.0.2.99:443
 	dup1      int                   // redelivery before use: 0 none, 1 same registrant, 2 another registrant
 	dup2      int                   // redelivery after use
 }
@@ -342,6 +348,9 @@ func (c *c10Case) wrapper() ([]byte, error) {
 		DecoyListGeneration: proto.Uint32(c.gen), ClientLibVersion: proto.Uint32(c.lib),
 		V4Support: proto.Bool(c.v4s), V6Support: proto.Bool(c.v6s), Transport: tt.Enum(),
 		CovertAddress: proto.String("192.0.2.99:443"),
+	}
+	if c.covert != "" {
+		c2s.CovertAddress = proto.String(c.covert)
 	}
 	if c.params != nil {
 		a, err := anypb.New(c.params)
